@@ -43,6 +43,9 @@ package proxy
 //                                    weightedRandom was non-empty with all weights zero
 //                                    (accepted by Validate / reported by discovery)
 //   C04.panic                        any other panic escaping sp.handle, NewServerPool or close
+//   C04.panic-concurrent-rand        two selections were inside the same private *rand.Rand
+//                                    (math/rand.New) at once: simkit/simrand wraps the source of
+//                                    such generators with a busy flag and a gate inside every draw
 //   C04.discovery-report-lost        watcher mode: a registry notification was never turned
 //                                    into a report although a pool was watching and every
 //                                    goroutine has been idle since (see third round below)
@@ -1771,6 +1774,15 @@ func c04Exec(r *sim.Run, sci interface{}) {
 			cands := model.candidates(st.s, st.sT, e)
 			note("%s=panic@%d", st.name, e)
 			r.Eventf("%s panic", st.name)
+			if strings.Contains(stack, "simrand.(*guardedSource).enter") {
+				// simkit's sentinel for private generators (simrand.New): a second
+				// goroutine entered a *rand.Rand while another one was inside it. (The
+				// value recovered may be a later panic of a deferred call run while
+				// unwinding from the sentinel's panic.)
+				r.Violate("C04.panic-concurrent-rand", "selection %s (policy %s) entered a *rand.Rand of the balancer while another selection was inside it: a *rand.Rand is not safe for concurrent use, concurrent draws corrupt the generator's state and ChooseServer panics (index out of range in math/rand); recovered value: %v\n%s\nhistory: %s",
+					st.name, policy, pnc, stack, history())
+				return
+			}
 			for _, g := range cands {
 				if weighted && g.n > 0 && g.total == 0 && nT == 0 && !g.loose {
 					origin := "static"
@@ -2425,7 +2437,7 @@ func c04Watching(pools []*c04Pool) int {
 }
 
 func c04Stack() string {
-	buf := make([]byte, 8<<10)
+	buf := make([]byte, 16<<10)
 	n := runtime.Stack(buf, false)
 	lines := strings.Split(string(buf[:n]), "\n")
 	var out []string
@@ -2433,7 +2445,7 @@ func c04Stack() string {
 		if strings.Contains(l, "easegress/pkg/") || strings.Contains(l, "math/rand") || strings.Contains(l, "simrand") {
 			out = append(out, strings.TrimSpace(l))
 		}
-		if len(out) >= 14 {
+		if len(out) >= 24 {
 			break
 		}
 	}
